@@ -6,6 +6,7 @@ CONSTANTS
   Overhead = 24
   DefMm = 2097152
   DefMc = 512
+  Dev_AbortLeaksChunks = FALSE
   Emit = FALSE
 INIT TInit1
 NEXT TNext
